@@ -222,7 +222,8 @@ def run_size(Mr, N, tier="quick", seed=0, canary=False):
 
 
 def tasks(tier, seed=0):
-    return [("c10", "run_size", (m, n), dict(tier=tier, seed=seed, canary=(n == 2))) for (m, n) in SIZES]
+    return [("c10", "run_size", (m, n), dict(tier=tier, seed=seed, canary=(n == 2))) for (m, n) in SIZES] + \
+        [("c10", "run_sparse_standin", (), dict(tier=tier, seed=seed))]
 
 
 def prebuild(tier):
@@ -234,3 +235,90 @@ TRUSTED = ["A1 real-arithmetic reading (backward error 1e-8 in floating point NO
 ASSUMPTIONS = ["lambda > 0, d > 0"]
 UNVERIFIED = ["sparse J / Eigen::SimplicialLDLT", "sizes beyond 4x3 (the property quantifies up to 40x40)", "floating-point backward error and dense-vs-sparse agreement",
               "colwise_norm for sparse matrices"]
+
+
+# ------------------------------------------------------------------------------------------ sparse path: bounded stand-in only
+def sparse_native_tu():
+    return r'''
+#include <cmath>
+#include <Eigen/Core>
+#include <Eigen/Sparse>
+#include <smooth/optim/tr_solver.hpp>
+// J given densely (m x n, column-major); zero entries are dropped, so the sparse code path with SimplicialLDLT (AMD ordering) runs
+extern "C" void sp_ldlt(int m, int n, const double * j, const double * d, const double * r, double lambda, double * x, double * dphi, double * xdense, double * dphidense)
+{
+  using namespace smooth;
+  Eigen::Map<const Eigen::MatrixXd> J(j, m, n);
+  Eigen::Map<const Eigen::VectorXd> D(d, n), R(r, m);
+  Eigen::SparseMatrix<double> Js = Eigen::MatrixXd(J).sparseView();
+  Js.makeCompressed();
+  double dp = 0, dpd = 0;
+  Eigen::VectorXd xs = solve_linear_ldlt(Js, D, R, lambda, dp);
+  Eigen::MatrixXd Jd = J;
+  Eigen::VectorXd xd = solve_linear_ldlt(Jd, D, R, lambda, dpd);
+  for (int i = 0; i < n; ++i) { x[i] = xs(i); xdense[i] = xd(i); }
+  *dphi = dp; *dphidense = dpd;
+}
+'''
+
+
+def run_sparse_standin(tier="quick", seed=0):
+    """BOUNDED stand-in for the sparse code path (SimplicialLDLT is not extracted): normal equations, dense/sparse agreement and dphi
+    (finite differences) on random sparse patterns (arrow, banded, random density), sizes up to 12 x 9."""
+    import ctypes
+    import math
+    from irsx import build
+    res = Results(PROP)
+    tag = PROP + "/sparse/standin"
+    try:
+        lib = ctypes.CDLL(build.compile_tu("c10_sparse_native", sparse_native_tu(), "so-gcc"))
+    except Exception as e:
+        res.add(tag + "/build", "error", "infra", 0.0, str(e)[-1500:])
+        return res
+    f = lib.sp_ldlt
+    f.restype = None
+    rng = random.Random(seed + 5)
+    worst = dict(normal=0.0, agree=0.0, dphi=0.0)
+    bad = None
+    pts = 0
+    for it in range(60 if tier == "quick" else 600):
+        m, n = rng.randint(3, 12), rng.randint(2, 9)
+        kind = it % 3
+        Jv = [[0.0] * n for _ in range(m)]
+        for i in range(m):
+            for c in range(n):
+                keep = (kind == 0 and (c == 0 or i % n == c)) or (kind == 1 and abs(i % n - c) <= 1) or (kind == 2 and rng.random() < 0.3)
+                if keep:
+                    Jv[i][c] = rng.uniform(-2, 2)
+        d = [10 ** rng.uniform(-1, 1) for _ in range(n)]
+        r = [rng.uniform(-2, 2) for _ in range(m)]
+        lam = 10 ** rng.uniform(-2, 2)
+
+        def call(lam_):
+            ja = (ctypes.c_double * (m * n))(*[Jv[i][c] for c in range(n) for i in range(m)])
+            da, ra = (ctypes.c_double * n)(*d), (ctypes.c_double * m)(*r)
+            x, xd = (ctypes.c_double * n)(), (ctypes.c_double * n)()
+            dp, dpd = ctypes.c_double(), ctypes.c_double()
+            f(m, n, ja, da, ra, ctypes.c_double(lam_), x, ctypes.byref(dp), xd, ctypes.byref(dpd))
+            return list(x), dp.value, list(xd), dpd.value
+        x, dp, xd, dpd = call(lam)
+        pts += 1
+        # normal equations residual (relative)
+        g = [sum(Jv[i][c] * (sum(Jv[i][k] * x[k] for k in range(n)) + r[i]) for i in range(m)) + lam * d[c] * d[c] * x[c] for c in range(n)]
+        scale = max(1e-30, max(abs(sum(Jv[i][c] * r[i] for i in range(m))) for c in range(n)))
+        e_n = max(abs(v) for v in g) / scale
+        e_a = max(abs(a - b) for a, b in zip(x, xd)) / max(1e-30, max(abs(b) for b in xd))
+        phi = lambda xx: math.sqrt(sum((d[k] * xx[k]) ** 2 for k in range(n)))
+        h = lam * 1e-5
+        fd = (phi(call(lam + h)[0]) - phi(call(lam - h)[0])) / (2 * h)
+        e_d = abs(fd - dp) / max(abs(fd), abs(dp), 1e-12) if phi(x) > 1e-9 else 0.0
+        worst["normal"], worst["agree"], worst["dphi"] = max(worst["normal"], e_n), max(worst["agree"], e_a), max(worst["dphi"], e_d)
+        if (e_n > 1e-8 or e_a > 1e-6 or e_d > 1e-3) and bad is None:
+            bad = dict(m=m, n=n, J=Jv, d=d, r=r, lam=lam, normal_residual=e_n, dense_sparse=e_a, dphi=dp, dphi_dense=dpd, finite_difference=fd)
+    res.standins.append(dict(function="solve_linear_ldlt (sparse J)", points=pts, max_rel_err=worst, label="bounded"))
+    if bad:
+        res.add(tag, "bounded-fail", "bounded-standin", 0.0, "sparse path: normal equations / dense-sparse agreement / dphi violated", witness=bad,
+                extra=dict(confirmed=True, replay=write_replay(tag, dict(obligation=tag, property=PROP, witness=bad))))
+    else:
+        res.add(tag, "bounded-ok", "bounded-standin", 0.0, "worst: %r over %d problems" % (worst, pts))
+    return res
